@@ -84,11 +84,16 @@ def mfOut (m : Method) (mfs : List Bytes) : List Int :=
       | none => none
   else []
 
-def outcome (host app : Bytes) (m : Method) (vias mfs : List Bytes) : Outcome :=
+/-- `cdnLoop` = the reverse-proxy-only check (`flags.accelerated` and a CDN-Loop member naming this Squid's surrogate id),
+which can only *raise* `loopDetected` in addition to the Via check -/
+def outcomeWith (cdnLoop : Bool) (host app : Bytes) (m : Method) (vias mfs : List Bytes) : Outcome :=
   if m = .options ∧ getInt64 mfs = 0 then .local501
   else if m = .trace ∧ getInt64 mfs = 0 then .localTrace
-  else if loopDetected host app vias then .denied
+  else if loopDetected host app vias || cdnLoop then .denied
   else .forward (mfOut m mfs)
+
+def outcome (host app : Bytes) (m : Method) (vias mfs : List Bytes) : Outcome :=
+  outcomeWith false host app m vias mfs
 
 def Outcome.isForward : Outcome → Bool
   | .forward _ => true
